@@ -123,6 +123,14 @@ func (ip *IPv4) SerializeTo(b gopacket.SerializeBuffer, opts gopacket.SerializeO
 	copy(bytes[12:16], ip.SrcIP)
 	copy(bytes[16:20], ip.DstIP)
 
+	// PrependBytes does not zero the bytes it returns: clear the options area, so
+	// that the padding after the last option and the tail of an option whose
+	// OptionData is shorter than OptionLength-2 are zero rather than stale buffer
+	// contents.
+	for i := 20; i < len(bytes); i++ {
+		bytes[i] = 0
+	}
+
 	curLocation := 20
 	// Now, we will encode the options
 	for _, opt := range ip.Options {
